@@ -114,7 +114,7 @@ func c13Case(side string, interval time.Duration, threshold int, pattern string,
 		sc := bufio.NewScanner(peerRWC)
 		sc.Buffer(make([]byte, 1<<20), 1<<20)
 		write := func(s string) { io.WriteString(peerRWC, s+"\n") }
-		if side == "server" {
+		if side == "server" && pendingKind != "no-initialize" {
 			write(`{"jsonrpc":"2.0","id":"init","method":"initialize","params":{"protocolVersion":"2025-06-18","capabilities":{},"clientInfo":{"name":"peer","version":"1"}}}`)
 		}
 		for sc.Scan() {
@@ -128,6 +128,10 @@ func c13Case(side string, interval time.Duration, threshold int, pattern string,
 			}
 			switch {
 			case m.Method == "" && string(m.ID) == `"init"`:
+				if pendingKind == "no-initialized" {
+					close(handshake)
+					continue
+				}
 				write(`{"jsonrpc":"2.0","method":"notifications/initialized","params":{}}`)
 				if pendingKind == "handler" {
 					// a request of the peer whose handler runs until its context ends
@@ -169,7 +173,9 @@ func c13Case(side string, interval time.Duration, threshold int, pattern string,
 			return obs, "connect: " + err.Error(), "c13 connect-failed"
 		}
 		sess = ss
-		<-handshake
+		if pendingKind != "no-initialize" {
+			<-handshake
+		}
 	} else {
 		c := NewClient(&Implementation{Name: "cli", Version: "1"}, &ClientOptions{KeepAlive: interval, KeepAliveFailureThreshold: threshold, Logger: quietLogger})
 		cs, err := c.Connect(ctx, sessT, &ClientSessionOptions{ProtocolVersion: "2025-06-18"})
@@ -434,7 +440,10 @@ func TestVerifC13(t *testing.T) {
 			gen(prefix+string(c), n-1, f)
 		}
 	}
-	for _, side := range []string{"server", "client", "server+pending-call", "client+pending-call", "server+pending-handler"} {
+	// (server+pending-no-initialize / no-initialized: the peer has connected but never sends initialize,
+	// or never follows it with notifications/initialized - a peer that hangs or dies during the handshake
+	// is a peer that stops answering like any other)
+	for _, side := range []string{"server", "client", "server+pending-call", "client+pending-call", "server+pending-handler", "server+pending-no-initialize", "server+pending-no-initialized"} {
 		pendingKind := ""
 		if i := strings.Index(side, "+pending-"); i >= 0 {
 			pendingKind = side[i+len("+pending-"):]
